@@ -20,6 +20,7 @@ from vlib import rx2smt as rx, rxlive
 
 WITNESS_LEN = {'quick': 6, 'thorough': 10}
 POISON = ['\x00', '!', '"', '\n', '\\', ')']
+EXTRA_WITNESSES = {'quick': 4, 'thorough': 8}
 
 
 class _Timeout(Exception):
@@ -149,6 +150,34 @@ def analyse_pattern(ctx, name, pat, wl, api_wrap=None):
             rec['Q1_witness'] = [xs, zs, ts]
             pumps.append(xs + zs + ts if ts else xs + zs)
             pumps.append(xs)
+            # one witness per loop hides the others: ask again with the first iteration of every earlier witness excluded
+            # (a loop body may be ambiguous in a benign and in an explosive way at the same time)
+            seen_x = [xs]
+            for k in range(EXTRA_WITNESSES.get(ctx.tier, 3)):
+                s.add(x != rx.lit(seen_x[-1]))
+                if len(seen_x[-1]) >= 1:
+                    s.add(z3.Not(z3.And(z3.PrefixOf(rx.lit(seen_x[-1][:1]), x), z3.Length(x) == len(seen_x[-1]),
+                                        z3.SuffixOf(rx.lit(seen_x[-1][1:]), x))) if len(seen_x[-1]) > 1 else x != rx.lit(seen_x[-1]))
+                rk = ctx.z3_check(s, f'{name}{path} Q1 more {k}', 15000)
+                if rk != 'sat':
+                    break
+                m = s.model()
+                xs2, zs2, ts2 = (rx.decode(m.eval(v, model_completion=True)) for v in (x, z, t))
+                rec.setdefault('Q1_more_witnesses', []).append([xs2, zs2, ts2])
+                pumps.append(xs2 + zs2 + ts2 if ts2 else xs2 + zs2)
+                seen_x.append(xs2)
+        # a witness x.z with z repeatable inside ONE iteration (x.z^j still in R) multiplies the number of parses per pump
+        for (xw, zw, tw) in ([rec['Q1_witness']] if 'Q1_witness' in rec else []) + rec.get('Q1_more_witnesses', []):
+            for j in (5, 3, 2):
+                cand = xw + zw * j
+                if len(cand) > 12:
+                    continue
+                sj = z3.Solver()
+                sj.add(z3.InRe(rx.lit(cand), R))
+                if ctx.z3_check(sj, f'{name}{path} Q1 stretch', 5000) == 'sat':
+                    pumps.insert(0, cand)
+                    rec.setdefault('Q1_stretched', []).append(cand)
+                    break
         # Q2: overlapping alternatives directly inside the loop body
         import re._constants as c
         alts = None
@@ -208,7 +237,7 @@ def analyse_pattern(ctx, name, pat, wl, api_wrap=None):
         except Exception:  # noqa: BLE001
             pres = ['']
         worst = None
-        for pump in list(dict.fromkeys(pumps))[:4]:
+        for pump in list(dict.fromkeys(pumps))[:10]:
             if not pump:
                 continue
             for pre in pres[:2]:
@@ -254,7 +283,7 @@ API_ATTACKS = [
     ('a', ' ', '!'), ('a', '/**/', '!'), ('a /*', '*', ''), ('a /*', '/', ''), (':nth-child(', '1', '!'),
     (':nth-child(2n', ' ', '!'), (':is(', 'a,', ''), (':not(', ':not(', ''), ('', '\\', ''), ('', '\\61', '!'),
     ('[', 'a', '!'), ('[a', ' ', '!'), ('[a=b', ' ', '!'), ('a', '>', ''), ('', ':a', '!'), ('a|', 'a', '!'),
-    ('', '-', '!'), ('[a="', '\\a', ''), ('[a="', '\\\n', ''), (':lang("', 'a-', ''), (':dir(', 'l', ''),
+    ('', '-', '!'), ('', '\\aa', '!'), ('', '\\aaaaaa', '!'), ('[', '\\a0b', '!'), (':lang(', '\\1a', '!'), ('[a="', '\\a', ''), ('[a="', '\\\n', ''), (':lang("', 'a-', ''), (':dir(', 'l', ''),
 ]
 
 
